@@ -98,6 +98,18 @@ class TTNTimeEvolution(TimeEvolution):
         """
         return arrmax(self.bond_dim_matrix(),axis=0)
 
+    def init_results(self, evaluation_time: Union[int,"inf"] = 1):
+        """
+        Initialises the result storage, including the bond dimension record.
+
+        Args:
+            evaluation_time (int, optional): The difference in time steps after
+                which to evaluate the operator expectation values.
+        """
+        super().init_results(evaluation_time)
+        if self.records_bond_dim:
+            self.bond_dims = {}
+
     def record_bond_dimensions(self):
         """
         Records the bond dimensions of the current state, if desired to do so.
